@@ -137,6 +137,10 @@ C13_BASE = {
     "enum_ab": "ENUM[a,b]", "enum_prefix": "ENUM[LOWER,LOW,HIGH]", "enum_two_words": 'ENUM["two words",x]', "enum_quote": 'ENUM["a\\"b",c]',
     "enum_ints": "ENUM[1,2]", "enum_bool_like": "ENUM[true,maybe]", "enum_case": "ENUM[Active,ACTIVE]", "enum_prefix_amb": "ENUM[ACT,ACTIVE,ACTION]",
     "enum_dash": "ENUM[in-progress,done]", "enum_padded": 'ENUM["01","10"]', "enum_null": "ENUM[null,none]", "enum_single": "ENUM[only]",
+    # members that LOOK like literals of another kind: reserved words in another letter case, decimal / exponent number texts
+    "enum_wrongcase_lit": "ENUM[TRUE,FALSE]", "const_wrongcase_lit": "CONST[True]", "enum_nullish": "ENUM[Null,NULL,None]",
+    "enum_decimals": 'ENUM["0.001","0.00001"]', "enum_trailing_zero": 'ENUM["0.10","0.15"]', "const_decimal": 'CONST["1.50"]',
+    "enum_exp": 'ENUM["1e3","1E5"]', "const_big_decimal": 'CONST["10000000000000000.0"]',
     "type_boolean": "TYPE[BOOLEAN]", "type_number": "TYPE[NUMBER]", "date": "DATE", "iso8601": "ISO8601",
 }
 C13_CHAINS = {}
